@@ -37,7 +37,7 @@ import (
 	"verif/harness/internal/ev"
 )
 
-const c52RuleText = "cases = reload history through the module's reload handler (40%: an earlier rule file for products p/q/r, then the current file naming one product; request routed to p or q) x 1-2 cors rules (AllowOrigins: %origin | * | null | explicit list | list+%origin; credentials; expose/allow headers; methods; max-age; cond default_t()/path prefix) x request (Origin: listed / near miss (case, trailing slash, prefix, suffix-extension, other scheme or port) / null / absent; GET/POST/OPTIONS with or without Access-Control-Request-Method) x backend response (Vary: absent, *, single, list with/without Origin, mixed case, two header lines; optional backend-set ACAO). non-trivial: origin allowed and echoed while the response already had a Vary without Origin, or a near-miss origin against an explicit list. distinct by the JSON of the case"
+const c52RuleText = "cases = reload history through the module's reload handler (40%: an earlier rule file for products p/q/r, then the current file naming one product; request routed to p or q) x 1-2 cors rules (AllowOrigins: %origin | * | null | explicit list | list+%origin; credentials; expose/allow headers; methods; max-age; cond default_t()/path prefix) x request (Origin: listed / near miss (case, trailing slash, prefix, suffix-extension, other scheme or port) / null / absent; GET/POST/OPTIONS with or without Access-Control-Request-Method) x backend response (Vary: absent, *, single, list with/without Origin, mixed case, two header lines; optional backend-set ACAO); for requests with Accept-Encoding (40%) the response also passes mod_compress, the next handler of the default response chain. non-trivial: origin allowed and echoed while the response already had a Vary without Origin, or a near-miss origin against an explicit list. distinct by the JSON of the case"
 
 type c52RuleSpec struct {
 	PathPrefix  string   `json:"path_prefix,omitempty"`
